@@ -3,9 +3,11 @@
    (C19, c).  The hooks of Session.client emit, while the lock protecting the
    step is held,
 
-     miss(call, addr)          lookup under RLock found nothing
-     hit(call, addr, client)   lookup under RLock found `client`
-     dialed(call, addr)        a new connection was established
+     request(call, svc)        client(info) entered for service svc
+     miss(call)                lookup under RLock found nothing for any advertised address
+     hit(call, addr, client)   lookup under RLock found `client` under addr
+     dialed(call, addr)        SelectEndPoint connected to addr and was authenticated
+     selfail(call)             SelectEndPoint returned an error
      insert(call, addr, client)  under the write lock: poll[addr] := client
      dup(call, addr, client)     under the write lock: entry found, own connection closed
      closed(addr)              closer: entry deleted under the write lock
@@ -16,7 +18,10 @@
    them one by one (micro-steps), so every invariant of Session.tla is
    evaluated in every intermediate state and an event that is not enabled
    (an insert while the pool holds an entry, a hit on an empty pool, a hit
-   returning another client than the pooled one ...) rejects the trace.
+   returning another client than the pooled one, a connection to another
+   address than the first usable one of the service's list, an entry under
+   another key than the connected address, an error for a service that can
+   be reached and was not refused ...) rejects the trace.
    Rounds (one fresh session each) are concatenated: reset ... end.          *)
 EXTENDS Session, Json, IOUtils, TLCExt
 
@@ -27,40 +32,49 @@ TraceLen == TLCGet(3)
 
 CONSTANT MaxCalls
 CallRange == {"c" \o ToString(i) : i \in 1..MaxCalls}     \* cfg: Gor <- CallRange
+\* the services of the free-running harness + the directory itself (cfg: Adv <- AdvTrace)
+AdvTrace == [s \in DOMAIN AdvAll \cup {"dir"} |-> IF s = "dir" THEN <<"D">> ELSE AdvAll[s]]
 
 VARIABLES l,     \* next event
           k,     \* next micro-step of that event
           cid    \* address -> identity of the real pooled client (0: none)
 tvars == <<vars, l, k, cid>>
 
-Prog(e) == CASE e = "miss"   -> <<"Start", "RLockEnter", "LookupMiss">>
-             [] e = "hit"    -> <<"Start", "RLockEnter", "LookupHit">>
-             [] e = "dialed" -> <<"Dial">>
-             [] e = "insert" -> <<"LockWait", "Lock", "Insert">>
-             [] e = "dup"    -> <<"LockWait", "Lock", "Dup">>
-             [] e = "closed" -> <<"Closer">>
-             [] OTHER        -> <<"none">>
+Prog(e, g) == CASE e = "request" -> <<"Start">>
+                [] e = "miss"    -> <<"RLockEnter", "LookupMiss">>
+                [] e = "hit"     -> <<"RLockEnter", "LookupHit">>
+                [] e = "dialed"  -> <<"SelectDial", "AuthOK">>
+                [] e = "selfail" -> IF Reachable(svc[g]) THEN <<"SelectDial", "AuthRefused">> ELSE <<"SelectFail">>
+                [] e = "insert"  -> <<"LockWait", "Lock", "Insert", "AddHandler">>
+                [] e = "dup"     -> <<"LockWait", "Lock", "Dup">>
+                [] e = "closed"  -> <<"Lose", "Closer">>
+                [] OTHER         -> <<"none">>
 
-Do(name, g, a) ==
-  CASE name = "Start"      -> Start(g, a)
+Do(name, g, T) ==
+  CASE name = "Start"      -> Start(g, T.svc)
     [] name = "RLockEnter" -> RLockEnter(g) /\ pc'[g] = "locked_r"
-    [] name = "LookupMiss" -> LookupMiss(g) /\ tgt[g] = a
-    [] name = "LookupHit"  -> LookupHit(g) /\ tgt[g] = a
-    [] name = "Dial"       -> Dial(g) /\ tgt[g] = a
-    [] name = "LockWait"   -> LockWait(g) /\ tgt[g] = a
+    [] name = "LookupMiss" -> LookupMiss(g)
+    [] name = "LookupHit"  -> LookupHit(g) /\ FirstHit(svc[g]) = T.addr
+    [] name = "SelectDial" -> SelectDial(g)
+    [] name = "SelectFail" -> SelectFail(g)
+    [] name = "AuthOK"     -> AuthOK(g) /\ cad'[g] = T.addr              \* the address actually connected
+    [] name = "AuthRefused" -> AuthRefused(g)
+    [] name = "LockWait"   -> LockWait(g) /\ MyKey(g) = T.addr            \* the key the pool is accessed under
     [] name = "Lock"       -> Lock(g)
     [] name = "Insert"     -> Insert(g)
+    [] name = "AddHandler" -> AddHandler(g)
     [] name = "Dup"        -> Dup(g)
-    [] name = "Closer"     -> Closer(a)
+    [] name = "Lose"       -> poll[T.addr] # NULL /\ Lose(poll[T.addr])
+    [] name = "Closer"     -> \E c \in cpend : conns[c].key = T.addr /\ Closer(c)
 
-TInit == Init /\ l = 1 /\ k = 1 /\ cid = [a \in Addrs |-> 0]
+TInit == Init /\ l = 1 /\ k = 1 /\ cid = [a \in AllAddrs |-> 0]
 
 Event ==
   /\ l <= TraceLen
   /\ LET T == TraceLog[l]
-         P == Prog(T.k)
+         P == Prog(T.k, T.call)
      IN /\ T.k \notin {"reset", "end"}
-        /\ Do(P[k], T.call, T.addr)
+        /\ Do(P[k], T.call, T)
         /\ IF k < Len(P)
              THEN k' = k + 1 /\ l' = l /\ UNCHANGED cid
              ELSE /\ k' = 1 /\ l' = l + 1
@@ -71,14 +85,15 @@ Event ==
 
 Reset ==
   /\ l <= TraceLen /\ TraceLog[l].k = "reset" /\ k = 1
-  /\ pc' = [g \in Gor |-> "idle"] /\ tgt' = [g \in Gor |-> CHOOSE a \in Addrs : TRUE]
-  /\ mine' = [g \in Gor |-> NULL] /\ ret' = [g \in Gor |-> NULL] /\ reqs' = [g \in Gor |-> 0]
-  /\ poll' = [a \in Addrs |-> NULL]
+  /\ pc' = [g \in Gor |-> "idle"] /\ svc' = [g \in Gor |-> AnySvc]
+  /\ mine' = [g \in Gor |-> NULL] /\ cad' = [g \in Gor |-> ""] /\ ret' = [g \in Gor |-> NULL]
+  /\ res' = [g \in Gor |-> "none"] /\ reqs' = [g \in Gor |-> 0]
+  /\ poll' = [a \in AllAddrs |-> NULL]
   /\ readers' = {} /\ writer' = NoG /\ wwait' = {}
-  /\ conns' = [c \in {} |-> [addr |-> CHOOSE a \in Addrs : TRUE, open |-> TRUE]]
+  /\ conns' = NoConns /\ cpend' = {} /\ losses' = 0
   /\ crashed' = FALSE /\ leaked' = FALSE
-  /\ svcList' = Addrs /\ svcMu' = NoG /\ dirty' = FALSE
-  /\ cid' = [a \in Addrs |-> 0]
+  /\ svcList' = Svcs /\ svcMu' = NoG /\ dirty' = FALSE
+  /\ cid' = [a \in AllAddrs |-> 0]
   /\ l' = l + 1 /\ k' = 1
 
 \* end of a round: everybody returned (the quiescence invariants are evaluated in this state)
